@@ -1,17 +1,28 @@
 ----------------------------- MODULE ZmtpTrace -----------------------------
 (* Acceptor for real round trips through ZmqSocket (C19, T1).  A case is                      *)
-(*   [id, items, wire, got, left]                                                                 *)
-(*   items : what was handed to the send routines, in order:                                  *)
+(*   [id, senders, recv, wire, got, left]                                                     *)
+(*   senders : one sequence of items per sending task, all tasks sending on the SAME socket;  *)
+(*           what each task handed to the send routines, in its order:                        *)
 (*           [k |-> "msg", frames]            send_multipart(frames)                          *)
 (*           [k |-> "single", body]           send(body)           (REP-style, read by recv())*)
 (*           [k |-> "cmd", name, params]      send_cmd(name, params)                          *)
+(*           One sender = the sequential round trip.  Several senders: the tasks run          *)
+(*           concurrently and the writer's drain() suspends them according to the case's      *)
+(*           schedule (a paused transport), so they overtake each other at every drain().     *)
+(*   recv  : "match"     the receiver calls recv_multipart() for a msg, recv() for a single   *)
+(*           "multipart" the receiver calls recv_multipart() only (the order of arrival is    *)
+(*                       not known to it); a single then arrives as <<empty frame, body>>     *)
 (*   wire  : the octets the capturing writer received                                         *)
 (*   got   : what recv_multipart()/recv() returned on the other side, the stream having been  *)
 (*           fed in the case's fragmentation: [k |-> "msg", frames] / [k |-> "single", body]  *)
 (*           / [k |-> "err"] (exception, EOF or starvation)                                   *)
 (* Byte strings are run-length encoded (ZmtpCore).  Verdict clauses:                          *)
-(*   wire   the octets written are the ZMTP encoding of the items (Encode of the model)       *)
-(*   dec    what was read back is what was sent (Lossless of the model, on the code)          *)
+(*   wire   the octets written are the ZMTP encodings of the items, back to back: each        *)
+(*          sender's in its order, no write of one sender inside another sender's item        *)
+(*          (WireIsMerge; Encode of the model)                                                *)
+(*   dec    what was read back is what was sent: an interleaving of the senders' sequences at *)
+(*          the granularity of whole messages (IsMerge; Lossless / MessagesIntact of the      *)
+(*          models, on the code)                                                              *)
 (*   model  the model's decoder, run on the octets the code wrote, yields what was sent       *)
 EXTENDS ZmtpCore, TLC, Json, IOUtils
 
@@ -19,19 +30,20 @@ EXTENDS ZmtpCore, TLC, Json, IOUtils
 ASSUME TLCSet(1, JsonDeserialize(IOEnv.CASES))
 Cases == TLCGet(1)
 
-RECURSIVE EncItems(_, _), ExpGot(_, _), ExpMsgs(_, _)
-EncItems(its, i) ==
-  IF i > Len(its) THEN <<>>
-  ELSE (CASE its[i].k = "msg"    -> Encode(its[i].frames, 1)
-          [] its[i].k = "single" -> EncodeSingle(its[i].body)
-          [] its[i].k = "cmd"    -> EncodeCmd(its[i].name, its[i].params)) \o EncItems(its, i + 1)
-\* what the receive routines must hand back, in order (commands are consumed silently)
-ExpGot(its, i) ==
+EncItem(it) == CASE it.k = "msg"    -> Encode(it.frames, 1)
+                 [] it.k = "single" -> EncodeSingle(it.body)
+                 [] it.k = "cmd"    -> EncodeCmd(it.name, it.params)
+EncsOf(its) == [j \in 1..Len(its) |-> Norm(EncItem(its[j]))]
+
+RECURSIVE ExpGot(_, _, _), ExpMsgs(_, _)
+\* what the receive routines must hand back for one sender's items, in order (commands are consumed silently)
+ExpGot(its, i, recv) ==
   IF i > Len(its) THEN <<>>
   ELSE (CASE its[i].k = "msg"    -> << [k |-> "msg", v |-> NormF(its[i].frames)] >>
-          [] its[i].k = "single" -> << [k |-> "single", v |-> Norm(its[i].body)] >>
-          [] its[i].k = "cmd"    -> <<>>) \o ExpGot(its, i + 1)
-\* the messages (frame lists) the stream consists of
+          [] its[i].k = "single" -> IF recv = "multipart" THEN << [k |-> "msg", v |-> <<<<>>, Norm(its[i].body)>>] >>
+                                    ELSE << [k |-> "single", v |-> Norm(its[i].body)] >>
+          [] its[i].k = "cmd"    -> <<>>) \o ExpGot(its, i + 1, recv)
+\* the messages (frame lists) one sender contributes to the stream
 ExpMsgs(its, i) ==
   IF i > Len(its) THEN <<>>
   ELSE (CASE its[i].k = "msg"    -> << NormF(its[i].frames) >>
@@ -42,12 +54,11 @@ GotView(g) == CASE g.k = "msg"    -> [k |-> "msg", v |-> NormF(g.frames)]
                 [] g.k = "single" -> [k |-> "single", v |-> Norm(g.body)]
                 [] OTHER          -> [k |-> "err", v |-> <<>>]
 
-OkWire(c) == Norm(EncItems(c.items, 1)) = Norm(c.wire)
-OkDec(c)  == LET e == ExpGot(c.items, 1) IN
-             /\ Len(c.got) = Len(e)
-             /\ c.left = 0                                   \* nothing of the stream is left unread
-             /\ \A j \in 1..Len(e) : LET g == GotView(c.got[j]) IN g.k = e[j].k /\ g.v = e[j].v
-OkModel(c) == LET d == Decode(c.wire) IN d.ok /\ d.msgs = ExpMsgs(c.items, 1)
+Snd(c) == DOMAIN c.senders
+OkWire(c) == WireIsMerge(c.wire, [s \in Snd(c) |-> EncsOf(c.senders[s])])
+OkDec(c)  == /\ c.left = 0                                   \* nothing of the stream is left unread
+             /\ IsMerge([j \in 1..Len(c.got) |-> GotView(c.got[j])], [s \in Snd(c) |-> ExpGot(c.senders[s], 1, c.recv)])
+OkModel(c) == LET d == Decode(c.wire) IN d.ok /\ IsMerge(AsMsgItems(d.msgs), [s \in Snd(c) |-> AsMsgItems(ExpMsgs(c.senders[s], 1))])
 
 VARIABLE i
 Init == i = 1
